@@ -438,6 +438,11 @@ pub fn gen_instance(rng: &mut Rng, o: &GenOpts) -> InstSpec {
     } else {
         None
     };
+    // a variable that was fixed earlier (its value is recorded, no function mentions it any more)
+    let mut vars = vars;
+    if rng.chance(1, 5) {
+        vars.push(VarSpec { id: 400, kind: 3, bound: Some((F(-2.0), F(2.0))), name: None, substituted: Some(F(rng.half(2, false))), meta: None });
+    }
     let description = if rng.chance(1, 3) { Some((Some("problem".to_string()), if rng.chance(1, 2) { Some("text, with a comma".to_string()) } else { None }, vec!["A".to_string(); rng.usize(3)], Some("sim".to_string()))) } else { None };
     let parameters = if rng.chance(1, 4) { Some(vec![(7, F(1.5)), (u64::MAX, F(-2.0))]) } else { None };
     InstSpec { vars, objective, constraints, removed, deps, sense: 1 + rng.below(2) as i32, hints, description, parameters }
@@ -465,7 +470,7 @@ pub fn gen_value(rng: &mut Rng, v: &VarSpec) -> F {
 /// total in-bound assignment of the independent variables
 pub fn gen_state(rng: &mut Rng, inst: &InstSpec) -> Vec<(u64, F)> {
     let deps = inst.dep_ids();
-    inst.vars.iter().filter(|v| !deps.contains(&v.id)).map(|v| (v.id, gen_value(rng, v))).collect()
+    inst.vars.iter().filter(|v| !deps.contains(&v.id) && v.substituted.is_none()).map(|v| (v.id, gen_value(rng, v))).collect()
 }
 
 pub fn assign_of(state: &[(u64, F)]) -> Assign {
